@@ -162,5 +162,25 @@ PROPS['C06'] = dict(
   outside=['walks longer than k', 'matrices without stored barcode (need user comparators; the truthfulness clause needs the barcode)', 'Z_p vine swaps (the library offers vine updates for Z_2 only)'],
   units=_u06)
 
+# ------------------------------------------------------------------------------------------------ C08
+_u08 = []
+for col in _COLS:
+    _u08.append(_pm('C08_repcycles.cpp', 'rep_ru_%s' % col.lower(), col=col, flavour=1, rep=1, m=5, weight=4))
+    if col != 'HEAP': _u08.append(_pm('C08_repcycles.cpp', 'rep_chain_%s' % col.lower(), col=col, flavour=2, rep=1, m=5, weight=4))
+_u08.append(_pm('C08_repcycles.cpp', 'rep_ru_rm', flavour=1, rep=1, removable=1, rows=1, m=5, extra=['VP_RM=2', 'VP_NOREINSERT'], weight=8, must=('end', 'removed')))
+_u08.append(_pm('C08_repcycles.cpp', 'rep_chain_rm', flavour=2, rep=1, removable=1, m=5, extra=['VP_RM=2'], weight=8, must=('end', 'removed')))
+_u08.append(_pm('C08_repcycles.cpp', 'rep_ru_tet6', flavour=1, rep=1, m=6, nv=4, weight=10))
+_kf8 = _pm('C08_repcycles.cpp', 'rep_ru_tet6_kf', flavour=1, rep=1, m=6, nv=4, extra=['VP_KF_RUREP'], weight=10); _kf8['kf'] = 'C08-ru-cycle-from-inverse'; _u08.append(_kf8)
+_kf8b = _pm('C08_repcycles.cpp', 'rep_ru_rm_norows_kf', flavour=1, rep=1, removable=1, m=5, extra=['VP_RM=2'], weight=8, must=()); _kf8b['kf'] = 'C08-ru-remove-last-stale-row'; _u08.append(_kf8b)
+_u08.append(_pm('C08_repcycles.cpp', 'rep_chain_tet6', flavour=2, rep=1, m=6, nv=4, weight=10))
+for fl in (1, 2):
+    _u08.append(_pm('C08_repcycles.cpp', 't_rep_%s_tet8' % _FL[fl], flavour=fl, rep=1, removable=1, m=8, nv=4, extra=['VP_RM=2'], tiers=['thorough'], weight=40))
+    _u08.append(_pm('C08_repcycles.cpp', 't_rep_%s_tri7' % _FL[fl], flavour=fl, rep=1, m=7, nv=3, tiers=['thorough'], weight=20))
+PROPS['C08'] = dict(
+  explanation='Bounded symbolic execution of update_representative_cycles / get_representative_cycle(s) of the RU and chain matrices (clang IR of the headers in /repo) with the filtration (and a remove_last / re-insert prefix) as solver variables; every clause of the statement is asserted on every path with dense GF(2) algebra in the harness: cell dimensions, zero boundary, youngest cell = birth cell, the class is independent of older classes and boundaries at every index of [birth, death), dependent at the death (a boundary for the chain flavour), and the representatives of the alive bars are a homology basis at every index.',
+  bounds=dict(quick='every filtered sub-complex of the triangle with m=5 cells for all column types and both flavours; m=6 cells of the tetrahedron for the default column type; remove_last of up to 2 cells + re-insertion; Z2', thorough='m=7 (triangle), m=8 (tetrahedron) with removals'),
+  outside=['Z_p representatives (the Cycle type carries no coefficients)', 'complexes beyond the bounds'],
+  units=_u08)
+
 NOT_APPLICABLE = {}
 NOTES = 'Clauses outside every claim: real thread schedules/TBB execution (engine is sequential), iostream text I/O, GMP arbitrary precision, Eigen-based Coxeter point location under general affine maps, SIMD paths of boost::unordered_flat_map (compiled with -U__SSE2__), allocation failure, inputs beyond the stated bounds.'
